@@ -214,11 +214,13 @@ func (t *traverser) start() {
 			return
 		}
 		if t.budget != nil {
-			t.budget.LinkBudget--
+			// same order as go-ipld-prime's own link loads: a link may be loaded
+			// while budget remains, and loading it uses one unit
 			if t.budget.LinkBudget <= 0 {
 				t.writeDone(&traversal.ErrBudgetExceeded{BudgetKind: "link", Link: t.root})
 				return
 			}
+			t.budget.LinkBudget--
 		}
 		nd, err := t.linkSystem.Load(ipld.LinkContext{Ctx: t.ctx}, t.root, ns)
 		if err != nil {
